@@ -65,9 +65,24 @@ def trailer(facts, res):
     for who, fn in (("writer", w), ("reader", r)):
         for mem in ("nbItemsInBlocks", "offsetOfBlocksForPtrs"):
             a = assignments_to(fn, mem)
-            if len(a) != 1:
-                raise AnalysisBroken("%s: %d assignments to %s (1 confirmed by reading)" % (fn["qname"], len(a), mem))
-            exprs[(who, mem)] = (sympy.expand(symx(facts, kids(a[0])[1])), a[0])
+            if len(a) == 1:
+                exprs[(who, mem)] = (sympy.expand(symx(facts, kids(a[0])[1])), a[0])
+                continue
+            # the arithmetic may live in a helper of the same class: inline it with the arguments of the call
+            found = None
+            for c in walk(tbf.body(fn)):
+                if c.get("k") in ("CallExpr", "CXXMemberCallExpr"):
+                    nm = tbf.callee_name(c)
+                    helpers = [g for g in facts.methods_of("TbfMemoryBlock") if g["name"] == nm and g is not fn and tbf.body(g) is not None and len(g["params"]) == len(tbf.call_args(c))]
+                    for g in helpers:
+                        ga = assignments_to(g, mem)
+                        if len(ga) == 1:
+                            e = sympy.expand(symx(facts, kids(ga[0])[1]))
+                            sub = {sympy.Symbol(p["name"]): sympy.expand(symx(facts, arg)) for p, arg in zip(g["params"], tbf.call_args(c))}
+                            found = (sympy.expand(e.subs(sub)), c)
+            if found is None:
+                raise AnalysisBroken("%s: %d assignments to %s (1 confirmed by reading) and no helper computing it" % (fn["qname"], len(a), mem))
+            exprs[(who, mem)] = found
     f = tbf.rel(facts.path_of(w))
     for mem in ("nbItemsInBlocks", "offsetOfBlocksForPtrs"):
         we, wn = exprs[("writer", mem)]
